@@ -47,6 +47,8 @@ func c19Patterns(thorough bool) []c19Pat {
 		arr("[]"), arr("[x]", x), arr("[1,x]", n1, x), arr("[2,x]", n2, x), arr("[x,y]", x, y),
 		arr("[[1],x]", func() Expr { return Arr_(N("1")) }, x),
 		arr("[x,[2,y]]", x, func() Expr { return Arr_(N("2"), V("y")) }),
+		// a literal behind a position that may already have failed: positions are tried in order and the first failure ends the attempt
+		arr("[2,1]", n2, n1), arr("[x,1]", x, n1),
 	)
 	if !thorough {
 		return base
@@ -101,6 +103,11 @@ var c19T = &Func{Name: "t", Params: []string{"i", "a", "b"}, Body: Blk(Pr(S("t")
 const c19StreamDoc = `[1,2,"a",null,true,[],[1],[2,5],[1,[2,3]],{"a":1},[[1],7],"2",false,0]`
 const c19StreamDocRev = `[0,false,"2",[[1],7],{"a":1},[1,[2,3]],[2,5],[1],[],true,null,"a",2,1]`
 
+var c19Sum = &Func{Name: "sum", Params: []string{"n"}, Body: Blk(&Return{X: &MatchExpr{Subj: V("n"), Cases: []MatchCase{{Pats: []Expr{N("0")}, Body: N("0")}, {Pats: []Expr{V("m")}, Body: Bin("+", CallE(V("sum"), Bin("-", V("m"), N("1"))), V("m"))}}}})}
+var c19T2 = &Func{Name: "t2", Params: []string{"i"}, Body: Blk(&Return{X: &MatchExpr{Subj: Arr_(V("i"), S("in t2")), Cases: []MatchCase{{Pats: []Expr{Arr_(V("x"), V("y"))}, Body: Arr_(V("y"), V("x"))}}}})}
+
+const c19Bodies = 5
+
 func c19Build(s c19Spec, pats []c19Pat) *progCase {
 	var subj Expr
 	if s.Subj < 0 {
@@ -122,6 +129,16 @@ func c19Build(s c19Spec, pats []c19Pat) *progCase {
 			mc.Block = Blk(Pr(S("block"), id, V("x"), V("y")))
 		case 2:
 			mc.Body = CallE(V("t"), id, V("x"), V("y"))
+		case 3:
+			// other matches run while this body is being evaluated: one binds a new name, one shadows x; afterwards x and y are this case's again
+			mc.Body = Arr_(id, V("x"),
+				&MatchExpr{Subj: N("7"), Cases: []MatchCase{{Pats: []Expr{V("z")}, Body: Arr_(V("x"), V("z"))}}},
+				&MatchExpr{Subj: Arr_(N("8"), N("9")), Cases: []MatchCase{{Pats: []Expr{Arr_(V("x"), V("z"))}, Body: Arr_(V("x"), V("y"), V("z"))}}},
+				&MatchExpr{Subj: N("6"), Cases: []MatchCase{{Pats: []Expr{V("x")}, Body: V("x")}}},
+				V("x"), V("y"))
+		case 4:
+			// a callee that matches (and recurses through a match) runs in the middle of the body
+			mc.Body = Arr_(CallE(V("sum"), N("3")), V("x"), CallE(V("t2"), id), V("x"), V("y"))
 		}
 		m.Cases = append(m.Cases, mc)
 	}
@@ -136,9 +153,9 @@ func c19Build(s c19Spec, pats []c19Pat) *progCase {
 		if s.Rev {
 			doc = c19StreamDocRev
 		}
-		return &progCase{P: &Program{Funcs: []*Func{c19T}, Rules: []*Rule{{Body: body}}}, Files: []inFile{{"in.json", doc}}}
+		return &progCase{P: &Program{Funcs: []*Func{c19T, c19Sum, c19T2}, Rules: []*Rule{{Body: body}}}, Files: []inFile{{"in.json", doc}}}
 	}
-	return &progCase{P: &Program{Funcs: []*Func{c19T}, Rules: []*Rule{{Kind: "BEGIN", Body: body}}}}
+	return &progCase{P: &Program{Funcs: []*Func{c19T, c19Sum, c19T2}, Rules: []*Rule{{Kind: "BEGIN", Body: body}}}}
 }
 
 func c19Check(c *fw.Ctx, s c19Spec, pats []c19Pat) *fw.Violation {
@@ -153,7 +170,7 @@ func c19Check(c *fw.Ctx, s c19Spec, pats []c19Pat) *fw.Violation {
 func init() {
 	fw.Register(&fw.Prop{
 		ID: "C19",
-		Rule: "12 subjects (scalars of every kind, unset, arrays of several lengths and nestings, an object) x all case lists of <= 2 cases with <= 2 alternatives each and all lists of 3 single-alternative cases over the pattern alphabet x 3 body kinds (expression using the bound names, block with a trace, tracing call); " +
+		Rule: "12 subjects (scalars of every kind, unset, arrays of several lengths and nestings, an object) x all case lists of <= 2 cases with <= 2 alternatives each and all lists of 3 single-alternative cases over the pattern alphabet x 5 body kinds (expression using the bound names, block with a trace, tracing call, a body that runs three further matches -- new name, array pattern, shadowing -- before using the names again, a body that calls matching / recursing functions); " +
 			"every case list of <= 3 single-alternative cases is also run as ONE match site over the sequence of all subjects (forward and reversed); outer variables named like the pattern names exist, so leaking or clobbering a binding is visible; oracle: DESIGN.md 3.17 through the reference interpreter (selected case, bindings, value, and the trace shows that no later pattern or body ran); " +
 			"a state is (subject, first-case pattern, selected?); non-trivial = (subject, pattern) pairs that match",
 		Plan: func(t fw.Tier) int { return len(c19Patterns(t == fw.Thorough)) * len(c19Subjects) },
@@ -173,7 +190,10 @@ func init() {
 				c.NonTrivial(c19Subjects[subj].name + " matches " + pats[first].name)
 			}
 			do := func(cases [][]int) {
-				for body := 0; body < 3; body++ {
+				for body := 0; body < c19Bodies; body++ {
+					if body >= 3 && !(len(cases) == 1 || (len(cases) == 2 && len(cases[0]) == 1 && len(cases[1]) == 1)) {
+						continue // the two nesting bodies go with the short case lists
+					}
 					s := c19Spec{Subj: subj, Cases: cases, Body: body}
 					c.Do(func() any { s.Text = c19Build(s, pats).source(); return s }, func() *fw.Violation { return c19Check(c, s, pats) })
 				}
@@ -215,7 +235,10 @@ func init() {
 			// the same match as ONE site over the sequence of all subjects (anything remembered per match expression would show)
 			if subj == 0 {
 				stream := func(cases [][]int) {
-					for body := 0; body < 3; body++ {
+					for body := 0; body < c19Bodies; body++ {
+						if body >= 3 && len(cases) > 2 {
+							continue
+						}
 						for _, rev := range []bool{false, true} {
 							s := c19Spec{Subj: -1, Rev: rev, Cases: cases, Body: body}
 							c.Do(func() any { return s }, func() *fw.Violation { return c19Check(c, s, pats) })
